@@ -319,6 +319,9 @@ func (bc *boundCtx) leLen(v, s ssa.Value, strict bool, at ssa.Instruction, depth
 	if isRangeKeyOf(v, s) {
 		return true // 0 <= key < len(s)
 	}
+	if isSortLessIndex(v, s) {
+		return true // sort.Slice(x, less) calls less with 0 <= i, j < len(x)
+	}
 	// s = make([]T, len(s2)) and v is a range key of s2
 	if mk, ok := s.(*ssa.MakeSlice); ok {
 		if call, ok := mk.Len.(*ssa.Call); ok && calleeFullName(call) == "builtin.len" && isRangeKeyOf(v, call.Call.Args[0]) {
@@ -379,6 +382,10 @@ func (bc *boundCtx) leLen(v, s ssa.Value, strict bool, at ssa.Instruction, depth
 		}
 		return len(x.Edges) > 0
 	case *ssa.Call:
+		// len(x) where x is a prefix of s (strings.HasPrefix(s, x) dominates, or x comes from a prefix collector applied to s)
+		if calleeFullName(x) == "builtin.len" && !strict && isPrefixOf(x.Call.Args[0], s, at) {
+			return true
+		}
 		// len(t) under len(s) >= len(t)
 		if calleeFullName(x) == "builtin.len" && !strict {
 			for _, ec := range condsDominating(at.Block()) {
@@ -653,24 +660,12 @@ func c16ShrinkingString(w *World, f *ssa.Function, h *ssa.BasicBlock, p *ssa.Phi
 			if !ok || calleeFullName(call) != "builtin.len" {
 				return false
 			}
-			// elem: element of a range over a global slice
-			ld, ok := call.Call.Args[0].(*ssa.UnOp)
-			if !ok {
+			// elem: element of a package-level table, directly or through a prefix collector
+			po := prefixOriginOf(call.Call.Args[0])
+			if po == nil {
 				return false
 			}
-			ia, ok := ld.X.(*ssa.IndexAddr)
-			if !ok {
-				return false
-			}
-			gl, ok := ia.X.(*ssa.UnOp)
-			if !ok {
-				return false
-			}
-			g, ok := gl.X.(*ssa.Global)
-			if !ok {
-				return false
-			}
-			table = g
+			table = po.Table
 			okShape = true
 			return walk(x.X)
 		}
@@ -685,26 +680,11 @@ func c16ShrinkingString(w *World, f *ssa.Function, h *ssa.BasicBlock, p *ssa.Phi
 		return ""
 	}
 	// all elements of the table are non-empty constants
-	initF := table.Pkg.Func("init")
-	if initF == nil {
-		return ""
-	}
-	n := 0
-	for _, i := range allInstrs(initF) {
-		st, ok := i.(*ssa.Store)
-		if !ok || st.Addr != ssa.Value(table) {
-			continue
-		}
-		els, ok := sliceElems(st.Val, 0)
-		if !ok {
+	consts := w.tableConstants(table)
+	n := len(consts)
+	for _, s := range consts {
+		if s == "" {
 			return ""
-		}
-		for _, e := range els {
-			s, ok := constString(e.V)
-			if !ok || s == "" {
-				return ""
-			}
-			n++
 		}
 	}
 	if n == 0 {
@@ -712,4 +692,63 @@ func c16ShrinkingString(w *World, f *ssa.Function, h *ssa.BasicBlock, p *ssa.Phi
 	}
 	// exit when a pass finds nothing: the loop has an exit edge guarded by a boolean that is set only where the string shrinks
 	return "shrinking string: " + canon(p) + " only changes to s[len(x):] with x one of the " + itoa(n) + " non-empty constants of " + table.Name() + "; a pass that matches nothing leaves the loop"
+}
+
+// isSortLessIndex: v is a parameter of a comparator closure whose only use is
+// as the less argument of sort.Slice / sort.SliceStable applied to the very
+// slice variable that s loads (the closure's captured variable).
+func isSortLessIndex(v, s ssa.Value) bool {
+	p, ok := v.(*ssa.Parameter)
+	if !ok || p.Parent() == nil || p.Parent().Parent() == nil {
+		return false
+	}
+	less := p.Parent()
+	ld, ok := s.(*ssa.UnOp)
+	if !ok || ld.Op != token.MUL {
+		return false
+	}
+	fv, ok := ld.X.(*ssa.FreeVar)
+	if !ok {
+		return false
+	}
+	fvi := -1
+	for i, x := range less.FreeVars {
+		if x == fv {
+			fvi = i
+		}
+	}
+	if fvi < 0 || storesThroughFreeVars(less) {
+		return false
+	}
+	n := 0
+	for _, i := range allInstrs(less.Parent()) {
+		mc, ok := i.(*ssa.MakeClosure)
+		if !ok || mc.Fn != ssa.Value(less) {
+			continue
+		}
+		for _, r := range *mc.Referrers() {
+			call, ok := r.(*ssa.Call)
+			if !ok {
+				return false
+			}
+			name := calleeFullName(call)
+			if (name != "sort.Slice" && name != "sort.SliceStable") || call.Call.Args[1] != ssa.Value(mc) {
+				return false
+			}
+			mi, ok := call.Call.Args[0].(*ssa.MakeInterface)
+			if !ok {
+				return false
+			}
+			sl, ok := mi.X.(*ssa.UnOp)
+			if !ok || sl.Op != token.MUL || sl.X != mc.Bindings[fvi] {
+				return false
+			}
+			// the slice variable is not reassigned between its load and the sort call
+			if sl.Block() != call.Block() {
+				return false
+			}
+			n++
+		}
+	}
+	return n > 0
 }
